@@ -156,6 +156,12 @@ def cases(tier, seed):
         yield {"k": "users", "ctxs": ctxs}
     yield {"k": "strform"}
     yield {"k": "edge"}
+    # arguments that are dict subclasses with __missing__ (defaultdict, Counter): a key that
+    # is absent is absent - d[key] would create it
+    dd = M.enum_dicts(LEAVES["q3"], 2)
+    step = 37 if tier == "quick" else 5
+    for i in range(0, len(dd), step):
+        yield {"k": "ddargs", "d1": dd[i], "others": dd[(i * 7) % len(dd)::max(1, len(dd) // 12)]}
     # arguments with sharing INSIDE (one sub-dictionary object under two keys: a DAG, not a
     # tree); the algebra is defined by value, so the results must equal those on tree copies
     subs = M.enum_dicts(LEAVES["q3"], 1)
@@ -659,6 +665,53 @@ def _run(r, obs, rep, F):
                                  "update_recursively(%r, %r, %r) = %r, expected %r"
                                  % (d, path, val, x, exp))
                     obs.count("string_form_updates")
+    elif k == "ddargs":
+        import collections
+        obs.nontrivial = True
+
+        def to_dd(v):
+            if isinstance(v, dict):
+                d = collections.defaultdict(int)
+                for kk, x in v.items():
+                    d[kk] = to_dd(x)
+                return d
+            return v
+
+        def plain(v):
+            if isinstance(v, dict):
+                return {kk: plain(x) for kk, x in v.items()}
+            return v
+        d1 = r["d1"]
+        for d2 in r["others"]:
+            for which in ("second", "first", "both"):
+                a = to_dd(d1) if which in ("first", "both") else M.cp(d1)
+                b = to_dd(d2) if which in ("second", "both") else M.cp(d2)
+                for L in (-1, 1):
+                    rep.evals += 3
+                    obs.count("dict_subclass_argument_calls", 3)
+                    gd = F.difference(a, b) if L == -1 else F.difference(a, b, L)
+                    if plain(gd) != M.diff(d1, d2, L):
+                        rep.fail("difference-differs-for-dict-subclass-with-__missing__",
+                                 "difference(%r, %r, level=%r) with the %s argument(s) given as "
+                                 "defaultdict = %r, expected %r"
+                                 % (d1, d2, L, which, plain(gd), M.diff(d1, d2, L)))
+                    gi = F.intersection(a, b, level=L)
+                    if plain(gi) != M.meet([d1, d2], L):
+                        rep.fail("intersection-differs-for-dict-subclass-with-__missing__",
+                                 "intersection(%r, %r, level=%r) with the %s argument(s) given "
+                                 "as defaultdict = %r, expected %r"
+                                 % (d1, d2, L, which, plain(gi), M.meet([d1, d2], L)))
+                    if plain(a) != d1 or plain(b) != d2:
+                        rep.fail("argument-changed",
+                                 "difference / intersection changed a defaultdict argument: %r "
+                                 "-> %r, %r -> %r" % (d1, plain(a), d2, plain(b)))
+                        break
+                x = M.cp(d1)
+                F.update_recursively(x, b)
+                if x != M.update(d1, d2) or plain(b) != d2:
+                    rep.fail("update_recursively-differs-for-dict-subclass-with-__missing__",
+                             "update_recursively(%r, <defaultdict %r>) = %r, expected %r (other "
+                             "afterwards %r)" % (d1, d2, plain(x), M.update(d1, d2), plain(b)))
     elif k == "aliased":
         obs.nontrivial = True
         X = r["x"]
